@@ -77,7 +77,7 @@ func (*c15Prop) Plans(tier string) []Plan {
 var c15SetOps = []string{"newset", "insert", "insert", "insert", "union", "union", "len", "each", "each-nested"}
 var c15MapOps = []string{"newmap", "inc", "inc", "inc", "filter", "filter", "get", "keys", "mapeach", "mapeach-nested"}
 
-func c15GenOp(r *Rand) c15Op {
+func c15GenOp(r *Rand, hi int) c15Op {
 	var o c15Op
 	if r.Chance(3, 5) {
 		o.Op = c15SetOps[r.Intn(len(c15SetOps))]
@@ -85,15 +85,18 @@ func c15GenOp(r *Rand) c15Op {
 		o.Op = c15MapOps[r.Intn(len(c15MapOps))]
 	}
 	o.A, o.B = r.Intn(1000), r.Intn(1000)
-	o.V = r.Range(-2, 6)
+	o.V = r.Range(-2, hi)
 	switch o.Op {
 	case "newset":
 		n := r.Range(0, 5)
+		if hi > 6 {
+			n = r.Range(0, 14) // larger sets: size-dependent paths (buffers, thresholds)
+		}
 		for i := 0; i < n; i++ {
 			if i > 0 && r.Chance(1, 3) {
 				o.Vals = append(o.Vals, o.Vals[r.Intn(len(o.Vals))]) // duplicates leave spare capacity
 			} else {
-				o.Vals = append(o.Vals, r.Range(-2, 6))
+				o.Vals = append(o.Vals, r.Range(-2, hi))
 			}
 		}
 	case "newmap":
@@ -103,7 +106,7 @@ func c15GenOp(r *Rand) c15Op {
 			o.V = -99 // NewIntMap(nil)
 		} else {
 			for i := 0; i < n; i++ {
-				o.Vals = append(o.Vals, r.Range(-2, 6), r.Range(-1, 4)) // counts supplied by the caller may be zero or negative
+				o.Vals = append(o.Vals, r.Range(-2, hi), r.Range(-1, 4)) // counts supplied by the caller may be zero or negative
 			}
 		}
 	}
@@ -116,16 +119,21 @@ func (*c15Prop) Gen(r *Rand, pl *Plan) Case {
 	if size <= 0 {
 		size = 20
 	}
+	// integer domain: -2..6 mostly (dense collisions), -2..24 in a quarter of the cases
+	hi := 6
+	if r.Chance(1, 4) {
+		hi = 24
+	}
 	if pl.Variant == 0 {
 		n := r.Range(2, size)
 		for i := 0; i < n; i++ {
-			c.Ops = append(c.Ops, c15GenOp(r))
+			c.Ops = append(c.Ops, c15GenOp(r, hi))
 		}
 		return c
 	}
 	n := r.Range(1, 6)
 	for i := 0; i < n; i++ {
-		o := c15GenOp(r)
+		o := c15GenOp(r, hi)
 		if i == 0 && r.Chance(2, 3) {
 			// bias: a shared set with spare capacity
 			o = c15Op{Op: "newset", Vals: []int{1, 1, r.Range(2, 6), r.Range(-2, 6)}}
@@ -137,7 +145,7 @@ func (*c15Prop) Gen(r *Rand, pl *Plan) Case {
 		var ops []c15Op
 		k := r.Range(1, size)
 		for i := 0; i < k; i++ {
-			ops = append(ops, c15GenOp(r))
+			ops = append(ops, c15GenOp(r, hi))
 		}
 		c.TaskOps = append(c.TaskOps, ops)
 	}
@@ -230,7 +238,7 @@ func checkMap(im data.IntMap, m map[int]int) string {
 	if !eqInts(keys, want) {
 		return fmt.Sprintf("map Keys()=%v, model %v", keys, want)
 	}
-	for k := -3; k <= 7; k++ {
+	for k := -3; k <= 25; k++ {
 		if im.Get(k) != m[k] {
 			return fmt.Sprintf("map Get(%d)=%d, model %d", k, im.Get(k), m[k])
 		}
